@@ -723,6 +723,31 @@ theorem itext_block_idempotent (dl : Str) (lists : List CList) (es : List Ent) :
     itext dl (pad lists (es.foldl ins (pad lists (setup es)))) = itext dl (pad lists (setup es)) := by
   rw [itext_setup_idempotent lists es]
 
+theorem lang_present_of_entry : ∀ (es : List Ent) (T : Table) (e : Ent), e ∈ es → e.lang ∈ keys (es.foldl ins T)
+  | [], _, _, h => by cases h
+  | x :: xs, T, e, h => by
+    simp only [List.foldl_cons]
+    rcases List.mem_cons.1 h with h' | h'
+    · subst h'
+      have : ∀ (ys : List Ent) (A : Table), e.lang ∈ keys A → e.lang ∈ keys (ys.foldl ins A) := by
+        intro ys
+        induction ys with
+        | nil => intro A h; exact h
+        | cons y ys ih => intro A h; exact ih _ (keys_ins A y _ h)
+      exact this xs _ (by unfold ins; rw [mem_keys_upd]; exact Or.inr rfl)
+    · exact lang_present_of_entry xs _ e h'
+
+/-- `orOther_lang_order_irrelevant` with its hypothesis derived from the entry list: the languages
+of the generated choice are languages of labels of *earlier* choices (that is how xls2json builds the
+set, xls2json.py:1066-1078), and every label language of an earlier choice has an entry in `pre`
+(`Itext.optEntries`: one entry per (language, text) of the label dict). -/
+theorem orOther_lang_order_irrelevant_of_entries (π : Process.SetOrder) (pre post : List Ent) (id : Str) (langs : List Str)
+    (hfrom : ∀ l ∈ langs, ∃ e ∈ pre, e.lang = l) :
+    setup (pre ++ otherEntries id (π.iter langs) ++ post) = setup (pre ++ otherEntries id langs ++ post) :=
+  orOther_lang_order_irrelevant π pre post id langs fun l hl => by
+    obtain ⟨e, he, hel⟩ := hfrom l hl
+    rw [← hel]; exact lang_present_of_entry pre [] e he
+
 def demoEnts : List Ent :=
   [⟨"en".toList, "yn-0".toList, "long".toList, "txt".toList⟩, ⟨"fr".toList, "yn-0".toList, "long".toList, "txt".toList⟩,
    ⟨"en".toList, "/d/q:label".toList, "long".toList, "txt".toList⟩, ⟨"en".toList, "/d/q:hint".toList, "guidance".toList, "txt".toList⟩,
